@@ -667,7 +667,7 @@ def judge_asgi(o, kind, n_items, raise_at, with_disconnect, slow_close, empty_at
         p.append(f"producer cleanup started {o['cleanup_started']} times for {o['enter']} entries")
     # (a cleanup that is still awaiting when the client leaves is cancelled with the relay task - that is asyncio's contract;
     #  without a disconnect nothing may interrupt it)
-    if o["exit"] != o["cleanup_started"] and (not slow_close or o["disc_event_at"] is None):
+    if o["exit"] != o["cleanup_started"] and (not slow_close or (o["disc_event_at"] is None and not o.get("failed_sends"))):  # (a refused send() is the client leaving, too)
         p.append(f"producer cleanup completed {o['exit']} times for {o['enter']} entries")
     if o["gen_started"] and o["gen_state"] != "closed":
         p.append(f"user generator left {o['gen_state']}")
